@@ -160,11 +160,49 @@ package completion
 //@   requires g != nil
 //@   assigns g.maxY, g.maxX, g.columnsWidth, g.descriptionsWidth
 //@   ensures g.maxY == len(g.rows)
+//@   ensures [columns-cover-rows] all(k, 0, len(grid), len(grid[k]) <= len(g.columnsWidth))
 //@   loop 1 invariant numColumns >= 0 && all(k, 0, rangeindex + 1, len(grid[k]) <= numColumns)
 //@   loop 2 invariant len(values) == numColumns && len(descriptions) == numColumns && all(k, 0, len(grid), len(grid[k]) <= numColumns)
 //@   loop 3 invariant len(values) == numColumns && len(descriptions) == numColumns && all(k, 0, len(grid), len(grid[k]) <= numColumns)
 //@   loop 4 invariant len(values) == numColumns
 //@   loop 5 invariant len(values) == numColumns
+
+// The aliased grid: one row per shared description, wrapped on continuation rows; the selector walks it column by
+// column and only ever looks at the columns that were kept (maxX == len(columnsWidth)), so every candidate is
+// reachable exactly when every row fits in the kept columns and the rows, read in order, are still the candidates.
+//@ spec flat(rows [][]Candidate) []Candidate
+//@ axiom flat_nil(s [][]Candidate): len(s) == 0 ==> len(flat(s)) == 0
+//@ trigger flat(s)
+//@ axiom flat_snoc(s [][]Candidate, r []Candidate): flat(cat(s, unit(r))) == cat(flat(s), r)
+//@ trigger flat(cat(s, unit(r)))
+//@ axiom flat_take(s [][]Candidate, k int): 0 <= k && k < len(s) ==> flat(s[:k + 1]) == cat(flat(s[:k]), s[k])
+//@ trigger flat(s[:k]) ;; s[k]
+
+//@ func (*group).wrapExcessAliases
+//@   props C15 C01
+//@   terminates
+//@   requires g != nil && all(k, 0, len(grid), len(grid[k]) <= len(g.columnsWidth))
+//@   assigns g.rows, g.columnsWidth
+//@   allow_alias the rows of the temporary grid become the rows of g.rows; the only caller (initCompletionAliased) drops the grid
+//@   ensures [rows-fit-columns] all(k, 0, len(g.rows), len(g.rows[k]) <= len(g.columnsWidth))
+//@   ensures [no-candidate-lost] flat(g.rows) == flat(grid)
+//@   ensures [columns-kept] len(g.columnsWidth) <= old(len(g.columnsWidth)) && (old(len(g.columnsWidth)) > 0 ==> len(g.columnsWidth) >= 1)
+//@   loop 1 invariant 0 <= maxColumns && maxColumns <= len(g.columnsWidth)
+//@   loop 2 invariant 0 <= maxColumns && maxColumns <= len(g.columnsWidth) && (len(g.columnsWidth) > 0 ==> maxColumns >= 1) && all(k, 0, len(rows), len(rows[k]) <= maxColumns) && -1 <= rangeindex && rangeindex + 1 <= len(grid) && flat(rows) == flat(grid[:rangeindex + 1])
+//@   loop 3 invariant 0 <= maxColumns && maxColumns <= len(g.columnsWidth) && (len(g.columnsWidth) > 0 ==> maxColumns >= 1) && all(k, 0, len(rows), len(rows[k]) <= maxColumns) && cat(flat(rows), row) == flat(grid[:rowIndex + 1]) && len(row) <= len(g.columnsWidth) && 0 <= rowIndex && rowIndex < len(grid)
+//@   loop 3 decreases len(row)
+
+//@ func (*group).createDescribedRows
+//@   props C15 C01
+//@   terminates
+//@   assigns nothing
+
+//@ func (*group).initCompletionAliased
+//@   props C15 C01
+//@   requires g != nil
+//@   assigns g.aliased, g.rows, g.maxY, g.maxX, g.columnsWidth, g.descriptionsWidth
+//@   ensures g.aliased && g.maxY == len(g.rows) && g.maxX == len(g.columnsWidth)
+//@   ensures [every-cell-in-a-kept-column] all(k, 0, len(g.rows), len(g.rows[k]) <= g.maxX)
 
 //@ func (*group).initCompletionsGrid
 //@   props C15 C01
